@@ -57,6 +57,37 @@ class InjectedFault(Exception):
         self.tag = tag
 
 
+class InjectedKeyError(KeyError):
+    def __init__(self, tag):
+        super().__init__(tag)
+        self.tag = tag
+
+
+class InjectedLookupError(IndexError):
+    def __init__(self, tag):
+        super().__init__(tag)
+        self.tag = tag
+
+
+class InjectedAttributeError(AttributeError):
+    def __init__(self, tag):
+        super().__init__(tag)
+        self.tag = tag
+
+
+class InjectedStop(StopIteration):
+    def __init__(self, tag):
+        super().__init__(tag)
+        self.tag = tag
+
+
+FAULT_CLASSES = {c.__name__: c for c in (InjectedFault, InjectedKeyError, InjectedLookupError, InjectedAttributeError, InjectedStop)}
+
+
+def make_fault(fault):
+    return FAULT_CLASSES[fault.get('exc', 'InjectedFault')](fault['tag'])
+
+
 def _claim_ordinal(ctl):
     """Global (cross-process) construction ordinal: first free ord_<n> file in the control directory."""
     n = 0
@@ -76,7 +107,7 @@ class _Work(core.System):
         if m.delay:
             _time.sleep(m.delay)
         if m.fault and m.fault.get('kind') == 'step' and m.fault['ordinal'] == m.ordinal and m.fault['t'] == t:
-            raise InjectedFault(m.fault['tag'])
+            raise make_fault(m.fault)
         if t == m.stop:
             m.complete()
 
@@ -104,10 +135,14 @@ class VModel(core.Model):
         delays = control.get('delays') or [0]
         self.delay = delays[self.ordinal % len(delays)]
         if self.fault and self.fault.get('kind') == 'ctor' and self.fault['ordinal'] == self.ordinal:
-            raise InjectedFault(self.fault['tag'])
+            raise make_fault(self.fault)
         self.systems.add_system(_Work('work', self))
         for cid in control['collectors']:
-            self.systems.add_system(_Ident(cid, self))
+            # collectors either keep their default priority (-1) or share the priority of the completing system (registered after it)
+            if control.get('collector_priority') is None:
+                self.systems.add_system(_Ident(cid, self))
+            else:
+                self.systems.add_system(_Ident(cid, self, priority=control['collector_priority']))
 
 
 # ---------------------------------------------------------------------------------------------------------------------
